@@ -150,9 +150,14 @@ def obs_events(chk):
     rng = np.random.RandomState(950 + chk.seed)
     batch = obs.Batch('ObsC09')
     reps = 12 if chk.tier == 'quick' else 120
-    for rep in range(reps):
-        N = int(rng.choice([7, 16, 33, 64, 100, 200]))
-        cplx = bool(rng.randint(2))
+    sizes = [7, 16, 33, 64, 100, 129, 200]
+    grid = [(N, c) for N in sizes for c in (False, True)]
+    for rep in range(reps + len(grid)):
+        if rep < len(grid):
+            N, cplx = grid[rep]
+        else:
+            N = int(rng.choice(sizes))
+            cplx = bool(rng.randint(2))
         x = rng.randn(N) * 10 ** rng.uniform(-2, 2)
         y = rng.randn(N)
         if cplx:
